@@ -50,14 +50,18 @@ SPEC = {
 # U1
 # ------------------------------------------------------------------------------------------
 
-def crash_sig(rec):
+def crash_sig(rec, job=None):
     if rec.get("outcome") == "panic":
         s = lib.panic_sig(rec)
         return {"kind": "panic", "file": s["file"], "msg": s["msg"]}
     if rec.get("outcome") == "crash":
         tail = rec.get("stderr", "")
         what = "stack-overflow" if "overflowed its stack" in tail else "abort" if "memory allocation" in tail else "crash"
-        return {"kind": what, "signal": rec.get("signal")}
+        sig = {"kind": what, "signal": rec.get("signal")}
+        if what == "stack-overflow" and job is not None:
+            # exact trigger of the listed left-recursion finding (C19 lists the same root cause)
+            sig["left_recursive_subrule"] = lib.left_recursive_subrule(job.get("files") or [])
+        return sig
     return {"kind": rec.get("outcome")}
 
 
@@ -66,7 +70,7 @@ def u1_library(ctx, job, rec, level="library"):
     ctx.monitor("u1-" + level if level != "fault" else "u1-library")
     out = rec.get("outcome")
     if out in ("panic", "crash"):
-        ctx.violation("u1", crash_sig(rec), job, "normal end", {"outcome": out, "panic": rec.get("panic"), "stderr": rec.get("stderr", "")[-300:]})
+        ctx.violation("u1", crash_sig(rec, job), job, "normal end", {"outcome": out, "panic": rec.get("panic"), "stderr": rec.get("stderr", "")[-300:]})
         return None
     if out in ("cpu-timeout", "wall-timeout"):
         ctx.count("timeout-left-to-C19")
@@ -96,7 +100,7 @@ def u1_driver(ctx, job, rec, plan=None):
     ctx.monitor("u1-driver")
     out = rec.get("outcome")
     if out in ("panic", "crash"):
-        ctx.violation("u1", crash_sig(rec), job, "normal end", {"outcome": out, "panic": rec.get("panic")})
+        ctx.violation("u1", crash_sig(rec, job), job, "normal end", {"outcome": out, "panic": rec.get("panic")})
         return None
     if out != "done":
         ctx.excluded += 1
@@ -271,7 +275,10 @@ def process_case(ctx, rng):
     if res["signal"] is not None:
         what = "stack-overflow" if "overflowed its stack" in res["stderr"] else "signal"
         m = re.search(r"panicked at ([^:]+):", res["stderr"])
-        ctx.violation("u1-process", {"kind": what, "signal": res["signal"]}, job, "exit status 0 or 1", res["stderr"][-400:])
+        psig = {"kind": what, "signal": res["signal"]}
+        if what == "stack-overflow":
+            psig["left_recursive_subrule"] = lib.left_recursive_subrule(files)
+        ctx.violation("u1-process", psig, job, "exit status 0 or 1", res["stderr"][-400:])
         return
     if res["status"] not in (0, 1):
         m = re.search(r"panicked at ([^:\s]+):\d+:\d+:\s*\n?(.*)", res["stderr"])
